@@ -8,7 +8,9 @@ import (
 	"os"
 	"path/filepath"
 	"sort"
+	"strings"
 
+	blocks "github.com/ipfs/go-block-format"
 	"github.com/ipfs/go-cid"
 	carv2 "github.com/ipld/go-car/v2"
 	"github.com/ipld/go-car/v2/blockstore"
@@ -72,6 +74,21 @@ func c07Backing(c *Ctx, kind int, file []byte) (io.ReaderAt, string, func()) {
 	default:
 		return bytes.NewReader(file), "", func() {}
 	}
+}
+
+// c07BackingUnchanged: the bytes behind the store are still the archive that was opened.
+func c07BackingUnchanged(ra io.ReaderAt, path string, file []byte) bool {
+	if path != "" {
+		b, err := os.ReadFile(path)
+		return err == nil && bytes.Equal(b, file)
+	}
+	if f, ok := ra.(*os.File); ok {
+		b, err := os.ReadFile(f.Name())
+		return err == nil && bytes.Equal(b, file)
+	}
+	buf := make([]byte, len(file)+1)
+	n, _ := ra.ReadAt(buf, 0)
+	return bytes.Equal(buf[:n], file)
 }
 
 func c07KeyFromVal(q Val) (cid.Cid, []byte) {
@@ -179,6 +196,45 @@ func c07RunImpl(c *Ctx, front uint64, o c07Opts, file []byte, supplied Val, quer
 				}
 			case "close":
 				out = append(out, outOf(bs.Close()))
+			case "put", "putmany", "delete":
+				var err error
+				switch q.(VL)[0].(VT) {
+				case "put":
+					k, _ := c07KeyFromVal(q)
+					blk, _ := blocks.NewBlockWithCid([]byte(q.(VL)[2].(VB)), k)
+					err = bs.Put(ctx, blk)
+				case "putmany":
+					var blks []blocks.Block
+					for _, e := range q.(VL)[1].(VL) {
+						k, _ := c07KeyFromVal(VL{VT("k"), e.(VL)[0]})
+						blk, _ := blocks.NewBlockWithCid([]byte(e.(VL)[1].(VB)), k)
+						blks = append(blks, blk)
+					}
+					err = bs.PutMany(ctx, blks)
+				default:
+					k, _ := c07KeyFromVal(q)
+					err = bs.DeleteBlock(ctx, k)
+				}
+				class := "nil"
+				if err != nil {
+					class = errClass(err)
+					if strings.Contains(err.Error(), "called write method on a read-only carv2 blockstore") {
+						class = "readonly"
+					}
+				}
+				out = append(out, VL{VT("err"), VT(class), vbool(c07BackingUnchanged(ra, path, file))})
+			case "hashonread":
+				bs.HashOnRead(q.(VL)[1].(VN) != 0)
+				out = append(out, outNil())
+			case "idxgetall":
+				k, _ := c07KeyFromVal(q)
+				offs := VL{}
+				err := bs.Index().GetAll(k, func(o uint64) bool { offs = append(offs, VN(o)); return true })
+				if err != nil {
+					out = append(out, outErr(err))
+				} else {
+					out = append(out, VL{VT("offs"), offs})
+				}
 			default:
 				panic("harness: unknown ro query")
 			}
